@@ -1,6 +1,7 @@
 package checks
 
 import (
+	"io"
 	"errors"
 	"fmt"
 	"net"
@@ -449,6 +450,117 @@ func evalC17LMTP(c C17LMTPCase) *h.Finding {
 
 func init() { h.RegisterReplayer("c17-lmtp", evalC17LMTP) }
 
+// ---- replies that reach the client in two pieces -------------------------------------------------------------------------
+
+type C17SplitCase struct {
+	LMTP  bool `json:"lmtp"`
+	Reply int  `json:"reply"` // which answer of the conversation is split (-1: none)
+	At    int  `json:"at"`    // after how many octets of it
+}
+
+var c17SplitAnswers = []string{
+	"250-fake.example greets you\r\n250-8BITMIME\r\n250-ENHANCEDSTATUSCODES\r\n250 SIZE 1000\r\n",
+	"250 2.1.0 sender ok\r\n",
+	"550-5.1.1 no such user here\r\n550-5.1.1 second line of the refusal\r\n550 5.1.1 third line\r\n",
+	"250 2.1.5 recipient ok\r\n",
+	"252 2.1.5 cannot verify but will try\r\n",
+	"354 go ahead\r\n",
+	"554-5.6.0 message refused\r\n554 5.6.0 for reasons of taste\r\n", // SMTP: the one final answer; LMTP: the first recipient's
+	"250 2.6.0 <r3@x.example> delivered\r\n",                              // LMTP only: the second recipient's
+	"250 2.0.0 still here\r\n",                                            // NOOP
+}
+
+// c17SplitRun runs one fixed conversation against a scripted server and returns what the client reported, call by call.
+func c17SplitRun(c C17SplitCase) (string, *h.Finding) {
+	var f *h.Finding
+	var sb strings.Builder
+	answer := func(i int) []byte {
+		a := c17SplitAnswers[i]
+		if i == c.Reply && c.At > 0 && c.At < len(a) {
+			a = a[:c.At] + "\x00CUT\x00" + a[c.At:]
+		}
+		return []byte(a)
+	}
+	inData, rcpt := false, 0
+	script := func(line string, n int) []byte {
+		if inData {
+			if line != "." {
+				return []byte{}
+			}
+			inData = false
+			if c.LMTP {
+				return append(answer(6), answer(7)...)
+			}
+			return answer(6)
+		}
+		up := strings.ToUpper(line)
+		switch {
+		case strings.HasPrefix(up, "EHLO"), strings.HasPrefix(up, "LHLO"):
+			return answer(0)
+		case strings.HasPrefix(up, "MAIL"):
+			return answer(1)
+		case strings.HasPrefix(up, "RCPT"):
+			rcpt++
+			return answer(1 + rcpt) // 550 (refused), 250, 252
+		case strings.HasPrefix(up, "DATA"):
+			inData = true
+			return answer(5)
+		case strings.HasPrefix(up, "NOOP"):
+			return answer(8)
+		}
+		return []byte("250 2.0.0 ok\r\n")
+	}
+	report := func(what string, err error) { fmt.Fprintf(&sb, "%s: %s\n", what, cbErrString(err)) }
+	leak, pan := h.Bubble(func() {
+		h.WithScriptedServer("220 fake.example ready\r\n", script, c.LMTP, func(cs *h.CS) {
+			cl := cs.Client
+			report("Mail", cl.Mail("s@a.example", nil))
+			report("Rcpt 1", cl.Rcpt("r1@x.example", nil))
+			report("Rcpt 2", cl.Rcpt("r2@x.example", nil))
+			report("Rcpt 3", cl.Rcpt("r3@x.example", nil))
+			var w io.WriteCloser
+			var err error
+			if c.LMTP {
+				w, err = cl.LMTPData(func(r string, st *smtp.SMTPError) { report("status "+r, errOrNil(st)) })
+			} else {
+				w, err = cl.Data()
+			}
+			report("Data", err)
+			if err == nil {
+				w.Write([]byte("x\r\n"))
+				report("Close", w.Close())
+			}
+			report("Noop", cl.Noop())
+		}, nil)
+	})
+	if pan != "" {
+		f = h.F("c17-harness-panic", "%+v: %s", c, pan)
+	}
+	if leak != "" {
+		f = h.F("c17-deadlock", "%+v: client and scripted server are blocked on each other: %.200s", c, leak)
+	}
+	return sb.String(), f
+}
+
+// evalC17Split: a reply that arrives in two pieces (one Read each: a segment boundary inside the code, inside the text,
+// between CR and LF, between the lines of a multi-line reply) is the same reply.
+func evalC17Split(c C17SplitCase) *h.Finding {
+	got, f := c17SplitRun(c)
+	if f != nil {
+		return f
+	}
+	want, f := c17SplitRun(C17SplitCase{LMTP: c.LMTP, Reply: -1})
+	if f != nil {
+		return f
+	}
+	if got != want {
+		return h.F("c17-split-reply-differs", "lmtp=%t: answer %q delivered to the client in two pieces (cut after %d octets): the client reports\n%s   with the answer in one piece it reports\n%s", c.LMTP, c17SplitAnswers[c.Reply], c.At, got, want)
+	}
+	return nil
+}
+
+func init() { h.RegisterReplayer("c17-split", evalC17Split) }
+
 func C17(tier string) int {
 	run := h.NewRun("C17", tier, "exploration", "", 20*time.Minute)
 	codes := []int{421, 450, 451, 452, 500, 501, 550, 552, 554}
@@ -480,7 +592,7 @@ func C17(tier string) int {
 		}
 	}
 	recLines(nil)
-	run.Rule = fmt.Sprintf("reply codes %v x enhanced code {set (class.7.1), set with three-digit components (class.999.509; hand-picked messages), set with the other class (4.2.2 on a 5xx reply and vice versa), EnhancedCodeNotSet, NoEnhancedCode} x %d message shapes (hand-picked: one-line and two-line texts of 498..1900 octets, empty, leading/trailing space, text that looks like an enhanced code, non-ASCII, 1-3 lines, empty middle line, blank; plus ALL messages of 1-3 lines over the line shapes {empty, 'x', ' x', 'x ', '5.1.1 y', blanks, tab, printf verbs, a line starting with the reply's own enhanced code}) x callback {NewSession, Mail, Rcpt, Data}, plus non-SMTPError errors per callback x message shapes, incl. errors that WRAP an SMTPError (still 'any other error'); after every error reply a Noop on the same connection must work; each a real-client <-> real-server conversation; plus the Data verdicts of TWO consecutive transactions on one connection, each via {DATA, BDAT LAST, two BDAT chunks} x 5 verdict shapes each x {first backend call reads the message, returns its error without reading} (scripted peer: the go-smtp client has no BDAT). Distinct by construction; non-trivial = all. Oracle: wire reply (strict parser) and the client's returned *SMTPError both equal the backend's error (X.0.0 for an unset code, zero value for NoEnhancedCode); other errors => 451 (envelope) / 554 (data) with their text. Plus LMTP per-recipient statuses: every pair out of 7 errors handed to SetStatus (nil, SMTPErrors with set / unset / absent enhanced code, two lines, a plain error) x message via {DATA, BDAT LAST, two chunks}: each recipient's reply carries that code, enhanced code (X.0.0 when unset) and text.", codes, len(msgs))
+	run.Rule = fmt.Sprintf("reply codes %v x enhanced code {set (class.7.1), set with three-digit components (class.999.509; hand-picked messages), set with the other class (4.2.2 on a 5xx reply and vice versa), EnhancedCodeNotSet, NoEnhancedCode} x %d message shapes (hand-picked: one-line and two-line texts of 498..1900 octets, empty, leading/trailing space, text that looks like an enhanced code, non-ASCII, 1-3 lines, empty middle line, blank; plus ALL messages of 1-3 lines over the line shapes {empty, 'x', ' x', 'x ', '5.1.1 y', blanks, tab, printf verbs, a line starting with the reply's own enhanced code}) x callback {NewSession, Mail, Rcpt, Data}, plus non-SMTPError errors per callback x message shapes, incl. errors that WRAP an SMTPError (still 'any other error'); after every error reply a Noop on the same connection must work; each a real-client <-> real-server conversation; plus the Data verdicts of TWO consecutive transactions on one connection, each via {DATA, BDAT LAST, two BDAT chunks} x 5 verdict shapes each x {first backend call reads the message, returns its error without reading} (scripted peer: the go-smtp client has no BDAT). Distinct by construction; non-trivial = all. Oracle: wire reply (strict parser) and the client's returned *SMTPError both equal the backend's error (X.0.0 for an unset code, zero value for NoEnhancedCode); other errors => 451 (envelope) / 554 (data) with their text. Plus LMTP per-recipient statuses: every pair out of 7 errors handed to SetStatus (nil, SMTPErrors with set / unset / absent enhanced code, two lines, a plain error) x message via {DATA, BDAT LAST, two chunks}: each recipient's reply carries that code, enhanced code (X.0.0 when unset) and text. Plus: every answer of a scripted conversation (multi-line EHLO, 250, multi-line 550, 252, 354, multi-line 554, LMTP per-recipient answers) delivered to the client in TWO pieces, cut at every octet offset (inside the code, the enhanced code, the text, between CR and LF, between lines) x {SMTP, LMTP}: what every client call reports is what it reports for the answer in one piece (differential).", codes, len(msgs))
 	run.Assumptions = []string{"NoEnhancedCode combined with text that itself parses as an enhanced code is inherently ambiguous on the wire: only the reply code is judged there", "a generic Data error may be prefixed ('Error: transaction failed: ')"}
 	var cases []C17Case
 	for _, cb := range []string{"NewSession", "Mail", "Rcpt", "Data"} {
@@ -564,6 +676,21 @@ func C17(tier string) int {
 					run.Outcome("violation:" + f.Sig)
 				} else {
 					run.Outcome("lmtp-status-ok")
+				}
+			}
+		}
+	}
+	for _, lmtp := range []bool{false, true} {
+		for ri, a := range c17SplitAnswers {
+			for at := 1; at < len(a); at++ {
+				c := C17SplitCase{LMTP: lmtp, Reply: ri, At: at}
+				f := evalC17Split(c)
+				run.Eval(true)
+				if f != nil {
+					run.Violate("c17-split", c, f, func() *h.Finding { return evalC17Split(c) })
+					run.Outcome("violation:" + f.Sig)
+				} else {
+					run.Outcome("split-reply-ok")
 				}
 			}
 		}
